@@ -44,7 +44,7 @@ def main():
                 out.append(f"* **Known finding** `{k['signature']}`: {k['what']}.")
             else:
                 out.append(f"* **Repaired defect** `{k['signature']}` ({k['commit']}): {k['what']}.")
-        seeds = sorted(glob.glob(os.path.join(V, "seeded", pid, "m*")))
+        seeds = sorted(glob.glob(os.path.join(V, "seeded", pid, "*m[0-9]")))
         if seeds:
             out.append("* **Seeded changes** (written by independent agents from the property text only):")
             out.append("")
